@@ -198,6 +198,21 @@ def records(ctx):
             inp = base_in(phi, ns, xxs, mc=rng.random() < 0.6)
             cost = np.prod([n + 1 for n in ns]) * max(len(x) for x in xxs) + sum(n * len(x) for n, x in zip(ns, xxs)) * 3
             add('from_phi', inp, observe(lambda: call_from_phi(inp, phi, xxs)), site_of(P, 'analytic'), cost)
+    # two different grids of the same length that share their end points and first interior point, used one after the
+    # other with the same sample sizes in one process: the memoised beta differences must belong to the grid in use
+    for k in range(2 if q else 6):
+        P = 2 + k % 2
+        L = rng.randint(5, 7)
+        gA = np.linspace(0.0, 1.0, L)
+        gB = gA.copy()
+        for j in range(2, L - 1):
+            gB[j] = gA[j] + (gA[1] - gA[0]) * rng.uniform(-0.35, 0.35)
+        ns = rand_ns(P, 5)
+        for g in (gA, gB, gA):
+            xxs = [g.copy() for _ in range(P)]
+            phi = make_phi(rng, [len(x) for x in xxs], xxs)
+            inp = base_in(phi, ns, xxs, mc=False)
+            add('from_phi', inp, observe(lambda: call_from_phi(inp, phi, xxs)), site_of(P, 'analytic'), 60)
     # grids on a sub-interval of [0,1] (analytic and direct rule)
     for k in range(3 if q else 10):
         P = 1 + k % 3
